@@ -110,7 +110,7 @@ impl SimNode {
         Verdict::Accepted
     }
 
-    fn handle(&self, method: &str, params: &Value) -> Result<Result<Value, (i32, String)>, jsonrpc::Error> {
+    pub fn handle(&self, method: &str, params: &Value) -> Result<Result<Value, (i32, String)>, jsonrpc::Error> {
         boundary(&format!("rpc.{method}"));
         {
             let mut st = lock(&self.state);
